@@ -1097,8 +1097,8 @@ func (d *jsonDecDriver[T]) DecodeNaked() {
 			case "false":
 				z.v = valueTypeBool
 				z.b = false
-			default: // check if a number: float, int or uint
-				if err = jsonNakedNum(z, bs, d.h.PreferFloat, d.h.SignedInteger); err != nil {
+			default: // check if a number: float, int or uint (the number parser is lenient: "-", ".", "e5", "1." ...)
+				if !jsonIsNumberLiteral(bs) || jsonNakedNum(z, bs, d.h.PreferFloat, d.h.SignedInteger) != nil {
 					z.v = valueTypeString
 					z.s = d.d.detach2Str(bs, att)
 				}
